@@ -24,12 +24,20 @@ pub struct Item {
 }
 
 pub fn iterate(s: &str, pos: usize, html: bool, chk: bool) -> (Vec<Item>, bool) {
+    iterate_pat(s, pos, html, &[chk])
+}
+
+/// `pat`: the setting of the duplicate check before the 1st, 2nd, ... call (cyclic)
+pub fn iterate_pat(s: &str, pos: usize, html: bool, pat: &[bool]) -> (Vec<Item>, bool) {
     let r = catch_unwind(AssertUnwindSafe(|| {
         let mut it = if html { Attributes::html(s, pos) } else { Attributes::new(s, pos) };
-        it.with_checks(chk);
+        it.with_checks(pat[0]);
         let mut out = Vec::new();
         let mut guard = 0;
-        while let Some(r) = it.next() {
+        while let Some(r) = {
+            it.with_checks(pat[guard % pat.len()]);
+            it.next()
+        } {
             out.push(match r {
                 Ok(a) => Item { k: "Attr".into(), key: a.key.as_ref().to_vec(), val: a.value.to_vec(), e: String::new(), p1: 0, p2: 0 },
                 Err(e) => {
@@ -69,6 +77,9 @@ struct Beh {
     /// BytesStart::try_get_attribute for the names a, ab, p:nil, bb: rows [kind, vlo|p1, vhi|p2, e]
     #[serde(default)]
     tga: Option<Vec<Value>>,
+    /// the items when the duplicate check is switched on / off / on / on / off ... between the calls (with_checks in the middle)
+    #[serde(default)]
+    tog: Option<Vec<Value>>,
 }
 
 const GET_NAMES: [&str; 4] = ["a", "ab", "p:nil", "bb"];
@@ -144,6 +155,16 @@ pub fn replay(file: &str, prop: &str, out_dir: &str) -> Value {
                 }
             })
             .collect();
+        let row_to_item = |r: &Value| -> Item {
+            let a = r.as_array().unwrap();
+            let g = |i: usize| a[i].as_u64().unwrap() as usize;
+            let k = a[0].as_str().unwrap().to_string();
+            if k == "Attr" {
+                Item { k, key: b.s[g(2)..g(3)].to_vec(), val: b.s[g(4)..g(5)].to_vec(), e: String::new(), p1: 0, p2: 0 }
+            } else {
+                Item { k, key: vec![], val: vec![], e: a[6].as_str().unwrap().to_string(), p1: g(7), p2: g(8) }
+            }
+        };
         let (act, fused) = iterate(&s, b.pos, b.html != 0, b.chk != 0);
         cmp += exp.len() as u64 + 1;
         if exp.len() >= 2 {
@@ -160,6 +181,14 @@ pub fn replay(file: &str, prop: &str, out_dir: &str) -> Value {
             let tga_ok = b.html != 0 || &atga == tga;
             if anil != nil.to_string() || !tga_ok {
                 cons_bad = Some(json!({"has_nil": {"expected": nil, "actual": anil}, "try_get_attribute": {"names": GET_NAMES, "expected": tga, "actual": atga}}));
+            }
+        }
+        if let Some(tog) = b.tog.as_ref() {
+            let texp: Vec<Item> = tog.iter().map(row_to_item).collect();
+            let (tact, tfused) = iterate_pat(&s, b.pos, b.html != 0, &[true, false, true]);
+            cmp += texp.len() as u64 + 1;
+            if (texp != tact || !tfused) && cons_bad.is_none() {
+                cons_bad = Some(json!({"with_checks toggled on/off/on between the calls": {"expected": texp, "actual": tact, "fused": tfused}}));
             }
         }
         if exp != act || !fused || cons_bad.is_some() {
